@@ -68,6 +68,7 @@ Definition subset1 : subset :=
          SMarkup [10] MElement (b " r (#PCDATA|c)*");
          SMarkup [] MAttlist (b " r a CDATA ""<&'"" xmlns:p CDATA #FIXED 'urn:x'");
          SMarkup [cr] MNotation (b " gif PUBLIC ""image/gif""");
+         SMarkup [10] MNotation (b " gt SYSTEM '>""' ""]>'""");                                  (* '>' and the other quote inside a literal *)
          SMarkup [32] MElement [];                                                               (* (L) <!ELEMENT> *)
          SEntity (decl [na] [lit [na; cr]]);
          SMisc [10] (IPI (b "pi") [cr; 32] (b "in the subset"));
@@ -145,7 +146,8 @@ Definition bad_decl_lt := mk false (Some {| xd_version := ps [32] [] [] 34 (b "1
 Definition bad_decl_quote := mk false (Some {| xd_version := ps [32] [] [] 34 (b "1""0"); xd_encoding := None; xd_standalone := None; xd_ws := [] |}) None r0.
 Definition bad_decl_nows := mk false (Some {| xd_version := ps [32] [] [] 34 (b "1.0"); xd_encoding := Some (ps [] [] [] 34 (b "x"));
                                               xd_standalone := None; xd_ws := [] |}) None r0.
-Definition bad_markup_gt := with_sub [SMarkup [] MAttlist (b " r a CDATA "">""")] r0.          (* '>' in a quoted literal of a skipped declaration *)
+Definition bad_markup_gt := with_sub [SMarkup [] MElement (b " r (a>b)")] r0.                  (* '>' outside a quoted literal of a skipped declaration *)
+Definition bad_markup_quote := with_sub [SMarkup [] MAttlist (b " r a CDATA "">'")] r0.        (* a literal that is not closed (by the same quote) *)
 Definition bad_pe_only := with_sub [SParam [] [32] [32] (b "e") [32] (PLiteral 34 (b "v")) []] (ref_root (b "e")).      (* a parameter entity is no general entity *)
 Definition bad_ext_only := with_sub [SExternal [] [32] (b "e") [32] (XSystem [32] 34 (b "e.ent")) None []] (ref_root (b "e")).
 Definition bad_pe_ctrl := with_sub [SParam [] [32] [32] (b "e") [32] (PLiteral 34 [1]) []] r0.   (* not a Char *)
@@ -155,7 +157,7 @@ Definition bad_ext_nows := mk false None (dtd_of {| t_ws1 := [32]; t_name := b "
                                                     t_ext := Some (XSystem [32] 39 (b "r.dtd"), []); t_subset := None |}) r0.   (* <!DOCTYPE rSYSTEM ...> *)
 Definition bad_pi_xml := with_sub [SMisc [] (IPI (b "xml") [32] (b "version='1.0'"))] r0.
 Definition bad_noref := mk false None None (ref_root (b "e")).                                  (* no DOCTYPE, a reference *)
-Eval vm_compute in (map rejected [bad_decl_lt; bad_decl_quote; bad_decl_nows; bad_markup_gt; bad_pe_only; bad_ext_only;
+Eval vm_compute in (map rejected [bad_decl_lt; bad_decl_quote; bad_decl_nows; bad_markup_gt; bad_markup_quote; bad_pe_only; bad_ext_only;
                                   bad_pe_ctrl; bad_sys_quote; bad_ndata_nows; bad_ext_nows; bad_pi_xml; bad_noref]).
 
 (* not expressible in the syntax of Spec/CstFullS5.v, rejected by the model *)
@@ -186,3 +188,10 @@ Eval vm_compute in (map raw_rejected
 Eval vm_compute in (map raw_accepted
   [ "<?xml?><r/>";                                          (* a PI named xml *)
     "<!DOCTYPE r [<!ELEMENTr>]><r/>" ]).
+
+(* '>' inside a quoted literal of a skipped declaration does not end it *)
+Example markup_gt_in_literal :
+  check (with_sub [SMarkup [] MAttlist (b " r a CDATA "">"""); SMarkup [] MNotation (b " n SYSTEM '>'")] r0) = (true, true, true).
+Proof. vm_compute. reflexivity. Qed.
+Example markup_bad : map rejected [bad_markup_gt; bad_markup_quote] = [(false, true); (false, true)].
+Proof. vm_compute. reflexivity. Qed.
